@@ -22,6 +22,19 @@ def run(ctx, escalated=False):
     quick = ctx.tier == "quick" and not escalated
     cases = execprop.run(ctx, "C20", escalated, finish=False)
     cases += execprop.via_cases(ctx, "C20", 600 if quick else 12000)
+    # the adapters' half of "a job the answer omits keeps its state and stays tracked": generated squeue /
+    # sacct / bjobs / flux listings (job ids that outgrow the id column included) through the real
+    # `check_jobs`; a job that is not listed must come back without a state
+    import c16
+    import scripted as S
+    for k in range(500 if quick else 10000):
+        r = ctx.rng.random()
+        c = c16.run_slurm(ctx.rng) if r < 0.4 else (c16.run_lsf(ctx.rng) if r < 0.85 else c16.run_flux(ctx.rng))
+        c.monitor = [("omitted-stays-unknown", d) for cl, d in c.monitor if cl == "absent-is-none"]
+        c.data["kind"] = "adapter-listing"
+        cases.append(c)
+        ctx.count("adapter-listings")
+    S.install()
     diffs = compare(cases)
     account(ctx, cases)
     judge(ctx, cases, diffs, "execution-graph+adapters", shrink=execprop.shrink_factory(ctx, "C20"))
